@@ -593,7 +593,7 @@ Definition doc_rects (f hd : bool) (v : ytree) : list Rect :=
 Lemma parse_rectangle_entry_rect f hd t r :
   parse_rectangle f hd t = Ok r -> entry_rect f hd t = Some (to_rect (reset r)).
 Proof.
-  destruct t as [| | |l|]; try discriminate. cbn [parse_rectangle entry_rect].
+  destruct t as [| | |l| |]; try discriminate. cbn [parse_rectangle entry_rect].
   destruct l as [|x [|y [|w [|h [|e [|e' tl]]]]]]; try discriminate; intros H; do 4 inv_bind H;
     apply rect_num_ok in E, E0, E1, E2; rewrite E, E0, E1, E2.
   - unfold finish_rectangle in H. do 3 inv_bind H. inversion H; subst. reflexivity.
@@ -614,7 +614,7 @@ Qed.
 Lemma parse_rectangles_doc f hd v rs :
   parse_rectangles f hd v = Ok rs -> doc_rects f hd v = map to_rect (map reset rs).
 Proof.
-  unfold parse_rectangles, doc_rects. destruct v as [| | |l|]; try discriminate.
+  unfold parse_rectangles, doc_rects. destruct v as [| | |l| |]; try discriminate.
   destruct l as [|first rest]; [discriminate|].
   destruct (is_some (as_number first)).
   - intros H. cbn [parse_rect_list] in H. inv_bind H. inversion H; subst.
